@@ -95,7 +95,34 @@ def run(ctx, prog):
     else:
         i, tg, p = ex[0]
         dom = [s for s in strict if rec.dominates(tg, s[0]) or tg == s[0] or s[0] in (rec.reach([tg]) | {tg})]
-        ctx.inst('C13.R1', rec.short, 'missing segment decided by recovery_mode', bool(dom), 'missing-segment edge at %s leads to a recovery_mode switch: %s' % (rec.loc_of(i), bool(dom)))
+        # … on EVERY path: from the missing-segment edge nothing — neither the next segment of the loop nor a return — is reached without
+        # crossing a switch on recovery_mode (whose Strict edge refuses, above). A `continue` placed before the switch would skip it.
+        sw_blocks = sorted(set(s_[0] for s_ in strict))
+        heads = [c for c in rec.calls if c.callee and c.is_('re:Iterator>::next$') and rec.dominates(c.bb, i) and c.bb in rec.reach([i])]
+        esc = rec.reach([tg], avoid_blocks=sw_blocks) | ({tg} - set(sw_blocks))
+        leaks = [x for x in list(rec.return_blocks()) + [h.bb for h in heads] if x in esc]
+        ctx.inst('C13.R1', rec.short, 'missing segment decided by recovery_mode', bool(dom) and bool(heads) and not leaks,
+                 'missing-segment edge at %s: %s' % (rec.loc_of(i), ('a path reaches %s without asking recovery_mode: %s' % (
+                     'the next segment' if leaks[0] in [h.bb for h in heads] else 'a return', rt.path_witness(rec, rt.find_path(rec, [tg], [leaks[0]], avoid_blocks=sw_blocks)))) if leaks else
+                     'every path crosses a recovery_mode switch'))
+
+    # a snapshot that cannot be loaded at all: the failure edge is decided by recovery_mode on every path as well
+    for c in rec.calls_to('Snapshot::load_with_validation', 'Snapshot::load'):
+        s_e, f_e = flow.outcome_edges(rec, c)
+        if not f_e:
+            use = util.result_use(rec, c)
+            ctx.inst('C13.R1', rec.short, 'snapshot load failure is propagated or decided by recovery_mode', use == 'propagated', 'result of %s at %s is %s' % (flow.short(c.callee), c.loc, use))
+            continue
+        sw_blocks = sorted(set(s_[0] for s_ in strict))
+        starts = [e[1] for e in f_e]
+        esc = rec.reach(starts, avoid_blocks=sw_blocks) | (set(starts) - set(sw_blocks))
+        errs = flow.err_blocks(rec)
+        replay = [x.bb for x in rec.calls_to('WalReader::open')]
+        leaks = [x for x in list(rec.return_blocks()) + replay if x in esc]
+        # a return reached only through an Err-building block is a propagated refusal
+        leaks = [x for x in leaks if x in replay or x in (rec.reach(starts, avoid_blocks=sw_blocks + sorted(errs)) | (set(starts) - set(sw_blocks) - set(errs)))]
+        ctx.inst('C13.R1', rec.short, 'snapshot load failure is propagated or decided by recovery_mode', not leaks,
+                 'failure edge of %s at %s: %s' % (flow.short(c.callee), c.loc, 'reaches %s without asking recovery_mode' % ('the log replay' if leaks and leaks[0] in replay else 'a successful return') if leaks else 'every continuing path crosses a recovery_mode switch'))
 
     # ------------------------------------------------------------------ R2
     ctx.rule('C13.R2', 'read_all_strict returns Ok only past corrupted_entries == 0; Snapshot::load returns Ok only past the magic, '
